@@ -99,7 +99,7 @@ Lemma exec_mop_cases : forall sh scr who il m rest g g' c',
    (forall w, subs_by w (log g') = subs_by w (log g)) /\
    evfd g <= evfd g' /\ (forall t, m <> MQueue t) /\
    (m = MWakeTest -> c' = rest /\ quit g' = quit g /\ (wake sh il (calling g) (looping g) = true -> 0 < evfd g')) /\
-   (m = MQuitStore -> c' = rest /\ quit g' = true /\ quit_called (log g') = true) /\
+   (m = MQuitStore -> c' = MQuitWake :: rest /\ quit g' = true /\ quit_called (log g') = true) /\
    (m = MQuitWake -> c' = rest /\ quit g' = quit g /\ (qwake sh il = true -> 0 < evfd g')) /\
    (m <> MQuitStore -> quit g' = quit g /\ quit_called (log g') = quit_called (log g)) /\
    (il = false -> qtasks c' = qtasks rest))) /\
@@ -121,74 +121,88 @@ Qed.
 (* ---------------------------------------------------------------- the steps, relationally *)
 Inductive ctrl (sh : shape) (scr : scripts) (s : st) : label -> st -> Prop :=
 | c_enter : pc s = LPre -> lcode s = [] ->
-    ctrl sh scr s TLoop (mkSt (set_flags (sg s) (if resets sh then false else quit (sg s)) (calling (sg s)) true)
-                              LTest [] (fcode s))
+    ctrl sh scr s TLoop (mkSt (set_flags (sg s) (if resets_on_entry sh then false else quit (sg s)) (calling (sg s)) true)
+                              LTest [] (lnext s) (fcode s))
 | c_test_quit : pc s = LTest -> quit (sg s) = true ->
-    ctrl sh scr s TLoop (mkSt (set_flags (sg s) (quit (sg s)) (calling (sg s)) false) LDone [] (fcode s))
+    ctrl sh scr s TLoop (mkSt (set_flags (sg s) (quit (sg s)) (calling (sg s)) false) LExit [] (lnext s) (fcode s))
 | c_test_go : pc s = LTest -> quit (sg s) = false ->
-    ctrl sh scr s TLoop (mkSt (sg s) LPoll [] (fcode s))
+    ctrl sh scr s TLoop (mkSt (sg s) LPoll [] (lnext s) (fcode s))
 | c_poll_wake : pc s = LPoll -> poll_ready (sg s) = true -> evq (sg s) = [] ->
-    ctrl sh scr s TLoop (mkSt (sg s) (LHandle (0 <? evfd (sg s))) [] (fcode s))
+    ctrl sh scr s TLoop (mkSt (sg s) (LHandle (0 <? evfd (sg s))) [] (lnext s) (fcode s))
 | c_poll_ev : forall k r, pc s = LPoll -> evq (sg s) = k :: r ->
     ctrl sh scr s TLoop
          (mkSt (mkG (pending (sg s)) (evfd (sg s)) r (quit (sg s)) (calling (sg s)) (looping (sg s)) (log (sg s)))
-               (LHandle (0 <? evfd (sg s))) (expand_all true (scr k)) (fcode s))
+               (LHandle (0 <? evfd (sg s))) (expand_all true (scr k)) (lnext s) (fcode s))
 | c_spur : pc s = LPoll ->
-    ctrl sh scr s TSpur (mkSt (sg s) (LHandle (0 <? evfd (sg s))) [] (fcode s))
+    ctrl sh scr s TSpur (mkSt (sg s) (LHandle (0 <? evfd (sg s))) [] (lnext s) (fcode s))
 | c_read : pc s = LHandle true ->
     ctrl sh scr s TRead
          (mkSt (mkG (pending (sg s)) 0 (evq (sg s)) (quit (sg s)) (calling (sg s)) (looping (sg s)) (log (sg s)))
-               (LHandle false) (lcode s) (fcode s))
+               (LHandle false) (lcode s) (lnext s) (fcode s))
 | c_drain : pc s = LHandle false -> lcode s = [] ->
-    ctrl sh scr s TLoop (mkSt (set_flags (sg s) (quit (sg s)) true (looping (sg s))) LSwap [] (fcode s))
+    ctrl sh scr s TLoop (mkSt (set_flags (sg s) (quit (sg s)) true (looping (sg s))) LSwap [] (lnext s) (fcode s))
 | c_swap : pc s = LSwap ->
     ctrl sh scr s TLoop
          (mkSt (mkG [] (evfd (sg s)) (evq (sg s)) (quit (sg s)) (calling (sg s)) (looping (sg s)) (log (sg s)))
-               (LRun (pending (sg s))) [] (fcode s))
+               (LRun (pending (sg s))) [] (lnext s) (fcode s))
 | c_next : forall t b, pc s = LRun (t :: b) -> lcode s = [] ->
     ctrl sh scr s TLoop
          (mkSt (mkG (pending (sg s)) (evfd (sg s)) (evq (sg s)) (quit (sg s)) (calling (sg s)) (looping (sg s))
                     (log (sg s) ++ [EExecQ t]))
-               (LRun b) (expand_all true (scr t)) (fcode s))
+               (LRun b) (expand_all true (scr t)) (lnext s) (fcode s))
 | c_end : pc s = LRun [] -> lcode s = [] ->
-    ctrl sh scr s TLoop (mkSt (set_flags (sg s) (quit (sg s)) false (looping (sg s))) LTest [] (fcode s)).
+    ctrl sh scr s TLoop (mkSt (set_flags (sg s) (quit (sg s)) false (looping (sg s))) LTest [] (lnext s) (fcode s))
+| c_exit : pc s = LExit ->
+    ctrl sh scr s TLoop
+         (mkSt (mkG (pending (sg s)) (evfd (sg s)) (evq (sg s))
+                    (match resets sh with ResetExit => false | _ => quit (sg s) end)
+                    (calling (sg s)) (looping (sg s)) (log (sg s) ++ [ERet]))
+               LDone [] (lnext s) (fcode s))
+| c_again : forall seg more, pc s = LDone -> lnext s = seg :: more ->
+    ctrl sh scr s TLoop (mkSt (sg s) LPre seg more (fcode s)).
 
 Lemma step_cases : forall sh scr s lab s', step sh scr s lab = Some s' ->
   (exists i m rest g' c', lab = TF i /\ nth_error (fcode s) i = Some (m :: rest) /\
       exec_mop sh scr (S i) false m rest (sg s) = (g', c') /\
-      s' = mkSt g' (pc s) (lcode s) (upd (fcode s) i c')) \/
+      s' = mkSt g' (pc s) (lcode s) (lnext s) (upd (fcode s) i c')) \/
   (exists m rest g' c', lab = TLoop /\ code_ctx (pc s) = true /\ lcode s = m :: rest /\
-      exec_mop sh scr 0 true m rest (sg s) = (g', c') /\ s' = mkSt g' (pc s) c' (fcode s)) \/
+      exec_mop sh scr 0 true m rest (sg s) = (g', c') /\ s' = mkSt g' (pc s) c' (lnext s) (fcode s)) \/
   ctrl sh scr s lab s'.
 Proof.
-  intros sh scr [g p lc fc] lab s' H. unfold step in H. cbn [sg pc lcode fcode] in H.
+  intros sh scr [g p lc ln fc] lab s' H. unfold step in H. cbn [sg pc lcode lnext fcode] in H.
   destruct lab.
-  - destruct p as [ | | | [|] | | [|t b] | ]; destruct lc as [|m rest]; cbn in H; try discriminate;
+  - destruct p as [ | | | [|] | | [|t b] | | ]; destruct lc as [|m rest]; cbn in H; try discriminate;
       try (destruct (exec_mop sh scr 0 true m rest g) as [g' c'] eqn:E; injection H as <-;
            right; left; exists m, rest, g', c'; cbn; auto; fail);
       right; right.
     + injection H as <-. apply c_enter; reflexivity.
     + destruct (quit g) eqn:Q; injection H as <-.
-      * pose proof (c_test_quit sh scr (mkSt g LTest [] fc) eq_refl Q) as X. cbn in X. rewrite Q in X. exact X.
+      * pose proof (c_test_quit sh scr (mkSt g LTest [] ln fc) eq_refl Q) as X. cbn in X. rewrite Q in X. exact X.
       * apply c_test_go; auto.
     + destruct (quit g) eqn:Q; injection H as <-.
-      * pose proof (c_test_quit sh scr (mkSt g LTest (m :: rest) fc) eq_refl Q) as X. cbn in X. rewrite Q in X. exact X.
-      * apply (c_test_go sh scr (mkSt g LTest (m :: rest) fc)); auto.
+      * pose proof (c_test_quit sh scr (mkSt g LTest (m :: rest) ln fc) eq_refl Q) as X. cbn in X. rewrite Q in X. exact X.
+      * apply (c_test_go sh scr (mkSt g LTest (m :: rest) ln fc)); auto.
     + destruct (poll_ready g) eqn:R; [|discriminate]. destruct (evq g) eqn:Q; injection H as <-.
       * apply c_poll_wake; auto.
-      * eapply (c_poll_ev sh scr (mkSt g LPoll [] fc)); auto.
+      * eapply (c_poll_ev sh scr (mkSt g LPoll [] ln fc)); auto.
     + destruct (poll_ready g) eqn:R; [|discriminate]. destruct (evq g) eqn:Q; injection H as <-.
       * apply c_poll_wake; auto.
-      * eapply (c_poll_ev sh scr (mkSt g LPoll (m :: rest) fc)); auto.
+      * eapply (c_poll_ev sh scr (mkSt g LPoll (m :: rest) ln fc)); auto.
     + injection H as <-. apply c_drain; auto.
-    + injection H as <-. apply (c_swap sh scr (mkSt g LSwap [] fc)); auto.
-    + injection H as <-. apply (c_swap sh scr (mkSt g LSwap (m :: rest) fc)); auto.
+    + injection H as <-. apply (c_swap sh scr (mkSt g LSwap [] ln fc)); auto.
+    + injection H as <-. apply (c_swap sh scr (mkSt g LSwap (m :: rest) ln fc)); auto.
     + injection H as <-. apply c_end; auto.
-    + injection H as <-. apply (c_next sh scr (mkSt g (LRun (t :: b)) [] fc)); auto.
-  - destruct p as [ | | | [|] | | | ]; try discriminate. injection H as <-. right; right.
-    apply (c_read sh scr (mkSt g (LHandle true) lc fc)); auto.
+    + injection H as <-. apply (c_next sh scr (mkSt g (LRun (t :: b)) [] ln fc)); auto.
+    + injection H as <-. apply (c_exit sh scr (mkSt g LExit [] ln fc)); auto.
+    + injection H as <-. apply (c_exit sh scr (mkSt g LExit (m :: rest) ln fc)); auto.
+    + destruct ln as [|seg more]; [discriminate|]. injection H as <-.
+      apply (c_again sh scr (mkSt g LDone [] (seg :: more) fc) seg more); auto.
+    + destruct ln as [|seg more]; [discriminate|]. injection H as <-.
+      apply (c_again sh scr (mkSt g LDone (m :: rest) (seg :: more) fc) seg more); auto.
+  - destruct p as [ | | | [|] | | | | ]; try discriminate. injection H as <-. right; right.
+    apply (c_read sh scr (mkSt g (LHandle true) lc ln fc)); auto.
   - destruct p; try discriminate. injection H as <-. right; right.
-    apply (c_spur sh scr (mkSt g LPoll lc fc)); auto.
+    apply (c_spur sh scr (mkSt g LPoll lc ln fc)); auto.
   - destruct (nth_error fc i) as [[|m rest]|] eqn:N; try discriminate.
     destruct (exec_mop sh scr (S i) false m rest g) as [g' c'] eqn:E. injection H as <-.
     left. exists i, m, rest, g', c'. auto.
@@ -218,20 +232,21 @@ Proof.
       match goal with H : pc s = _ |- _ => rewrite H in A; cbn [batch] in A end; try exact A.
     + rewrite app_nil_r. exact A.
     + rewrite execq_app, subs_app. cbn. rewrite app_nil_r, <- A, <- !app_assoc. reflexivity.
+    + rewrite execq_app, subs_app. cbn. rewrite !app_nil_r. exact A.
 Qed.
 
-Lemma acct_init : forall prefix progs, acct (init prefix progs).
+Lemma acct_init : forall prefix later progs, acct (init prefix later progs).
 Proof. intros; reflexivity. Qed.
 
-Lemma acct_reach : forall sh scr prefix progs s, reach_t sh scr (init prefix progs) s -> acct s.
-Proof. intros sh scr prefix progs. apply reach_ind_inv; [apply acct_init|]. intros; eapply acct_step; eauto. Qed.
+Lemma acct_reach : forall sh scr prefix later progs s, reach_t sh scr (init prefix later progs) s -> acct s.
+Proof. intros sh scr prefix later progs. apply reach_ind_inv; [apply acct_init|]. intros; eapply acct_step; eauto. Qed.
 
 (* ---------------------------------------------------------------- I2: flags per program point *)
 Definition flags_ok (s : st) : Prop :=
   match pc s with
-  | LPre => calling (sg s) = false /\ looping (sg s) = false
-  | LSwap | LRun _ => calling (sg s) = true
-  | _ => True
+  | LPre | LExit | LDone => calling (sg s) = false /\ looping (sg s) = false
+  | LSwap | LRun _ => calling (sg s) = true /\ looping (sg s) = true
+  | LTest | LPoll | LHandle _ => calling (sg s) = false /\ looping (sg s) = true
   end.
 
 Lemma flags_step : forall sh scr s lab s', flags_ok s -> step sh scr s lab = Some s' -> flags_ok s'.
@@ -241,13 +256,13 @@ Proof.
                                         [(m & rest & g' & c' & -> & CC & LC & E & ->) | C]].
   - cbn [sg pc]. destruct (exec_mop_cases _ _ _ _ _ _ _ _ _ E) as (_ & Hc & Hl & _). rewrite Hc, Hl. exact A.
   - cbn [sg pc]. destruct (exec_mop_cases _ _ _ _ _ _ _ _ _ E) as (_ & Hc & Hl & _). rewrite Hc, Hl. exact A.
-  - inversion C; subst; cbn; auto;
-      match goal with H : pc s = _ |- _ => rewrite H in A end; auto.
+  - inversion C; subst; cbn;
+      match goal with H : pc s = _ |- _ => rewrite H in A end; destruct A; auto.
 Qed.
 
-Lemma flags_reach : forall sh scr prefix progs s, reach_t sh scr (init prefix progs) s -> flags_ok s.
+Lemma flags_reach : forall sh scr prefix later progs s, reach_t sh scr (init prefix later progs) s -> flags_ok s.
 Proof.
-  intros sh scr prefix progs. apply reach_ind_inv; [cbn; auto|]. intros; eapply flags_step; eauto.
+  intros sh scr prefix later progs. apply reach_ind_inv; [cbn; auto|]. intros; eapply flags_step; eauto.
 Qed.
 
 (* ---------------------------------------------------------------- I3: no lost wake-up *)
@@ -257,7 +272,8 @@ Definition quits_only (l : list act) : bool := forallb (fun a => match a with AQ
 (* either the wake-up test also fires before loop() (repaired shape), or the code that runs
    before loop() never queues *)
 Definition pre_ok (sh : shape) (s : st) : Prop :=
-  pc s = LPre -> wake_pre sh = true \/ forallb is_quit_mop (lcode s) = true.
+  wake_pre sh = true \/
+  ((pc s = LPre -> forallb is_quit_mop (lcode s) = true) /\ forallb (forallb is_quit_mop) (lnext s) = true).
 
 Definition NoStall (sh : shape) (s : st) : Prop :=
   pending (sg s) = [] \/ 0 < evfd (sg s) \/ will_drain (pc s) = true \/ midwake sh s = true.
@@ -288,16 +304,18 @@ Proof. intros sh s H1 H2 H3. unfold midwake. rewrite H1, H2, H3. apply orb_true_
 
 Lemma pre_ok_step : forall sh scr s lab s', pre_ok sh s -> step sh scr s lab = Some s' -> pre_ok sh s'.
 Proof.
-  intros sh scr s lab s' A H. unfold pre_ok in *.
+  intros sh scr s lab s' A H. unfold pre_ok in *. destruct A as [W|[A1 A2]]; [left; exact W|right].
   destruct (step_cases _ _ _ _ _ H) as [(i & m & rest & g' & c' & -> & N & E & ->) |
                                         [(m & rest & g' & c' & -> & CC & LC & E & ->) | C]].
-  - exact A.
-  - cbn [pc lcode]. intros P. destruct (A P) as [W|Q]; [left; exact W|right].
+  - split; assumption.
+  - cbn [pc lcode lnext]. split; [|exact A2]. intros P. pose proof (A1 P) as Q.
     rewrite LC in Q. cbn in Q. apply andb_true_iff in Q as [Q1 Q2].
     destruct (exec_mop_cases _ _ _ _ _ _ _ _ _ E) as [[(t & -> & _) | (_ & _ & _ & _ & _ & _ & _ & H2 & H3 & _)] _];
       [discriminate|].
-    destruct m; try discriminate; [destruct (H2 eq_refl) as [-> _]|destruct (H3 eq_refl) as [-> _]]; exact Q2.
-  - inversion C; subst; cbn [pc]; intros P; discriminate.
+    destruct m; try discriminate; [destruct (H2 eq_refl) as [-> _]; cbn; exact Q2|destruct (H3 eq_refl) as [-> _]; exact Q2].
+  - inversion C; subst; cbn [pc lcode lnext]; try (split; [intros P; discriminate|exact A2]).
+    match goal with H : lnext s = _ |- _ => rewrite H in A2 end. cbn in A2.
+    apply andb_true_iff in A2 as [B1 B2]. split; [intros _; exact B1|exact B2].
 Qed.
 
 Lemma nostall_step : forall sh scr s lab s', wake_weak sh = true -> lab <> TSpur ->
@@ -334,13 +352,13 @@ Proof.
     + (* queueInLoop on the loop thread: where are we? *)
       unfold flags_ok in FL. unfold pre_ok in PO.
       destruct (pc s) eqn:PC; try discriminate.
-      * destruct FL as [F1 F2]. destruct (PO eq_refl) as [W|Q].
+      * destruct FL as [F1 F2]. destruct PO as [W|[Q _]].
         -- right; right; right. apply midwake_loop; cbn [pc lcode sg head_is_wake]; auto.
            rewrite Hc, Hl, F1, F2. exact W.
-        -- rewrite LC in Q. discriminate.
+        -- specialize (Q eq_refl). rewrite LC in Q. discriminate.
       * right; right; left. reflexivity.
       * right; right; right. apply midwake_loop; cbn [pc lcode sg head_is_wake]; auto.
-        rewrite Hc, FL. apply wake_weak_calling; exact WW.
+        destruct FL as [F1 F2]. rewrite Hc, F1. apply wake_weak_calling; exact WW.
     + rewrite P.
       assert (NL : head_is_wake (lcode s) = true -> m = MWakeTest).
       { rewrite LC. destruct m; cbn; intros; try discriminate; reflexivity. }
@@ -364,20 +382,31 @@ Proof.
   apply andb_true_iff in H as [H1 H2]. destruct a; try discriminate. cbn. apply IH; exact H2.
 Qed.
 
-Lemma pre_ok_reach : forall sh scr prefix progs s,
-  wake_pre sh = true \/ quits_only prefix = true ->
-  reach_t sh scr (init prefix progs) s -> pre_ok sh s.
+Definition later_quits_only (later : list (list act)) : bool := forallb quits_only later.
+
+Lemma later_quits_expand : forall later, later_quits_only later = true ->
+  forallb (forallb is_quit_mop) (map (expand_all true) later) = true.
 Proof.
-  intros sh scr prefix progs s HP. revert s. apply reach_ind_inv.
-  - intros _. destruct HP as [W|Q]; [left; exact W|right]. cbn. apply quits_only_expand; exact Q.
+  induction later as [|a l IH]; cbn; intros H; [reflexivity|].
+  apply andb_true_iff in H as [H1 H2]. rewrite (quits_only_expand _ H1), (IH H2). reflexivity.
+Qed.
+
+Lemma pre_ok_reach : forall sh scr prefix later progs s,
+  wake_pre sh = true \/ (quits_only prefix = true /\ later_quits_only later = true) ->
+  reach_t sh scr (init prefix later progs) s -> pre_ok sh s.
+Proof.
+  intros sh scr prefix later progs s HP. revert s. apply reach_ind_inv.
+  - destruct HP as [W|[Q1 Q2]]; [left; exact W|right]. cbn. split.
+    + intros _. apply quits_only_expand; exact Q1.
+    + apply later_quits_expand; exact Q2.
   - intros; eapply pre_ok_step; eauto.
 Qed.
 
-Theorem no_stall_reach : forall sh scr prefix progs s,
-  wake_weak sh = true -> wake_pre sh = true \/ quits_only prefix = true ->
-  reach sh scr (init prefix progs) s -> NoStall sh s.
+Theorem no_stall_reach : forall sh scr prefix later progs s,
+  wake_weak sh = true -> wake_pre sh = true \/ (quits_only prefix = true /\ later_quits_only later = true) ->
+  reach sh scr (init prefix later progs) s -> NoStall sh s.
 Proof.
-  intros sh scr prefix progs s WW HP R. induction R as [|s lab s' R IH NS H].
+  intros sh scr prefix later progs s WW HP R. induction R as [|s lab s' R IH NS H].
   - left; reflexivity.
   - eapply nostall_step; eauto.
     + eapply flags_reach; apply reach_reach_t; eauto.
@@ -402,16 +431,16 @@ Qed.
    looping) has a reachable quiescent state with an unexecuted task (F-2) *)
 Definition stall_witness_prefix : list act := [AQueue 0].
 Definition stall_witness_labels : list label := [TLoop; TLoop; TLoop; TLoop].
-Definition stall_witness_state : st := mkSt (mkG [0] 0 [] false false true [ESub 0 0]) LPoll [] [].
+Definition stall_witness_state : st := mkSt (mkG [0] 0 [] false false true [ESub 0 0]) LPoll [] [] [].
 
 Lemma stall_witness_run : forall sh scr, wake_pre sh = false ->
-  run sh scr (init stall_witness_prefix []) stall_witness_labels = Some stall_witness_state.
+  run sh scr (init stall_witness_prefix [] []) stall_witness_labels = Some stall_witness_state.
 Proof.
-  intros sh scr W. unfold wake_pre in W. cbn. rewrite W. cbn. destruct (resets sh); reflexivity.
+  intros sh scr W. unfold wake_pre in W. cbn. rewrite W. cbn. destruct (resets_on_entry sh); reflexivity.
 Qed.
 
 Lemma stall_witness_reach : forall sh scr, wake_pre sh = false ->
-  reach sh scr (init stall_witness_prefix []) stall_witness_state /\
+  reach sh scr (init stall_witness_prefix [] []) stall_witness_state /\
   quiescent stall_witness_state = true /\ pending (sg stall_witness_state) <> [] /\
   looping (sg stall_witness_state) = true.
 Proof.
@@ -454,15 +483,15 @@ Proof.
       [[(t & -> & P & L & _) | (_ & _ & _ & SB & _)] _].
     + rewrite L, subs_by_app. cbn. rewrite app_nil_r. reflexivity.
     + rewrite SB. reflexivity.
-  - inversion C; subst; cbn [sg fcode set_flags log]; try reflexivity.
-    rewrite subs_by_app. cbn. rewrite app_nil_r. reflexivity.
+  - inversion C; subst; cbn [sg fcode set_flags log]; try reflexivity;
+      rewrite subs_by_app; cbn; rewrite app_nil_r; reflexivity.
 Qed.
 
-Theorem thread_order_reach : forall sh scr prefix progs s i,
-  reach_t sh scr (init prefix progs) s ->
+Theorem thread_order_reach : forall sh scr prefix later progs s i,
+  reach_t sh scr (init prefix later progs) s ->
   subs_by (S i) (log (sg s)) ++ fq i s = ptasks (nth i progs []).
 Proof.
-  intros sh scr prefix progs s i R. change (thr_acct i s = ptasks (nth i progs [])).
+  intros sh scr prefix later progs s i R. change (thr_acct i s = ptasks (nth i progs [])).
   induction R as [|s lab s' R IH H].
   - unfold thr_acct, fq, init. cbn [sg fcode log g0 subs_by flat_map app].
     rewrite nth_error_map. destruct (nth_error progs i) eqn:N; cbn.
@@ -508,7 +537,7 @@ Lemma run_in_loop_sync_step : forall sh scr s t rest,
     log (sg s') = log (sg s) ++ [EExecI t] /\ pending (sg s') = pending (sg s) /\
     pc s' = pc s /\ lcode s' = expand_all true (scr t) ++ rest.
 Proof.
-  intros sh scr [g p lc fc] t rest CC LC. cbn in CC, LC. subst lc.
-  unfold step. cbn [sg pc lcode fcode].
-  destruct p as [ | | | [|] | | [|? b] | ]; try discriminate; cbn; eexists; split; try reflexivity; cbn; auto.
+  intros sh scr [g p lc ln fc] t rest CC LC. cbn in CC, LC. subst lc.
+  unfold step. cbn [sg pc lcode lnext fcode].
+  destruct p as [ | | | [|] | | [|? b] | | ]; try discriminate; cbn; eexists; split; try reflexivity; cbn; auto.
 Qed.
